@@ -39,17 +39,18 @@ Theorem C04_authentic_passes : forall msg signers,
   validate_basic msg signers (map (fun a => sign a msg) signers) = true.
 Proof. exact validate_basic_complete. Qed.
 
-(* delivery: IF txDeliverer validated, execution would imply authenticity ... *)
-Theorem C04_deliver_sound_partial : forall signers_of static_ok process_ok t,
-  deliver_tx signers_of static_ok process_ok true t = true ->
+(* delivery: the deliverer validates (fact below), so a transaction that is executed carries an
+   authentic signature of every required signer over exactly its content *)
+Theorem C04_deliver_sound : forall signers_of static_ok process_ok t,
+  deliver_tx signers_of static_ok process_ok deliverer_calls_validate t = true ->
   authentic (t_raw t) (signers_of (t_raw t)) (t_sigs t).
 Proof. exact deliver_sound_if_validated. Qed.
+Print Assumptions C04_deliver_sound.
 
-(* ... but the full statement is refuted for the code as written: txDeliverer does not call
-   Validate (fact below), so a transaction without any signature is executed when its handler
-   succeeds.  Known finding C04.deliver_unvalidated. *)
-Theorem C04_deliver_refuted : exists signers_of static_ok process_ok t,
-  deliver_tx signers_of static_ok process_ok deliverer_calls_validate t = true /\
+(* the call is necessary: a deliverer that does not validate executes a transaction without
+   any signature (this was the code before fix d276709; finding C04.deliver_unvalidated) *)
+Theorem C04_deliver_unvalidated_refuted : exists signers_of static_ok process_ok t,
+  deliver_tx signers_of static_ok process_ok false t = true /\
   ~ authentic (t_raw t) (signers_of (t_raw t)) (t_sigs t).
 Proof.
   exists (fun _ => [7]), (fun _ => true), (fun _ => true),
@@ -60,11 +61,13 @@ Qed.
 
 (* ---- tie to the source (regenerated on every run) ---- *)
 
-(* CheckTx calls handler.Validate before anything else; DeliverTx does not (the finding) *)
+(* CheckTx calls handler.Validate before anything else, and so does DeliverTx: the handler call
+   is guarded by an `if` on the Validate result that discards the session and returns *)
 Theorem C04_fact_checker_validates : checker_calls_validate = true.
 Proof. vm_compute. reflexivity. Qed.
-Theorem C04_fact_deliverer_does_not_validate : deliverer_calls_validate = false.
-Proof. vm_compute. reflexivity. Qed.
+Theorem C04_fact_deliverer_validates :
+  deliverer_calls_validate = true /\ deliverer_validate_guards_handler = true.
+Proof. vm_compute. auto. Qed.
 
 (* every handler's Validate calls ValidateBasic(tx.RawBytes(), msg.Signers(), tx.Signatures)
    before any `return true` and checks its error — except OLVM, audited: it recovers the
